@@ -23,7 +23,8 @@ FALLIBLE_EQUIV = {
 OVERFLOW_OPS = {"AddWithOverflow": "Add", "SubWithOverflow": "Sub", "MulWithOverflow": "Mul"}
 COMMUTATIVE = {"Add", "Mul", "BitAnd", "BitOr", "BitXor", "Eq", "Ne", "Decimal::add", "Decimal::mul"}
 MIRROR = {"Gt": "Lt", "Ge": "Le"}
-TRANSPARENT_CALLS = {"String::clone", "str::to_owned", "str::to_string", "String::to_string", "String::from", "String::as_str"}
+TRANSPARENT_CALLS = {"String::clone", "str::to_owned", "str::to_string", "String::to_string", "String::from", "String::as_str",
+                     "String::from<str>", "String::from<&str>", "String::from<String>", "to_owned"}
 
 
 def strip_generics(s):
@@ -186,6 +187,8 @@ def norm(v):
     if k == "op":
         name = v[1]
         args = [norm(x) for x in v[2]]
+        if name == "to_owned" and len(args) == 1:
+            return args[0]
         if name in MIRROR:
             name = MIRROR[name]
             args = args[::-1]
